@@ -118,7 +118,12 @@ fn cmd_selftest() -> i32 {
             j.bound = j.bound.min(1);
             let mut sig = Vec::new();
             for _ in 0..2 {
-                match run_job(prop, &j, (0, 1), None, None, &known) {
+                let r = if let Some(seq) = &j.seq {
+                    Ok(job::run_seq_job(prop, &j, seq, (0, 1), None, &known, Some(&json!({"selftest": true}))))
+                } else {
+                    run_job(prop, &j, (0, 1), None, None, &known)
+                };
+                match r {
                     Ok(r) => sig.push((r.value["executions"].clone(), r.value["trace_digests"].clone(), r.value["root_steps"].clone(), r.violation.map(|v| v["detail"].clone()))),
                     Err(e) => {
                         eprintln!("MACHINERY-ERROR: selftest {}: {e}", j.id);
